@@ -127,15 +127,17 @@ def decode_wrap(ctx):
         rs = [r for r in ast.walk(h) if isinstance(r, ast.Raise)]
         nm = [dotted(r.exc.func) for r in rs if isinstance(r.exc, ast.Call)]
         ctx.check(bool(nm) and all(x.endswith("CompileException") for x in nm), "handler-raises", db.where(h), "decode failure raises %s" % nm, "raises CompileException")
-    bom_if = [i for i in walk_func(fn) if isinstance(i, ast.If) and "startswith(codecs.BOM_UTF8)" in src(i.test)]
-    ctx.require(bom_if, "BOM branch not found")
-    b = bom_if[0]
-    sl = [s for s in b.body if isinstance(s, ast.Assign) and src(s.targets[0]) == pn(fn, 1)]
+    # what happens when the input starts with a BOM: statements under a test (possibly held in a local) of text.startswith(BOM)
+    bomc = "%s.startswith(codecs.BOM_UTF8)" % pn(fn, 1)
+    under_bom = [s for s in walk_func(fn) if isinstance(s, ast.stmt) and (bomc, True) in guards_of(s, fn, fn=fn)]
+    ctx.require(under_bom, "BOM branch not found")
+    b = under_bom[0]
+    sl = [s for s in under_bom if isinstance(s, ast.Assign) and src(s.targets[0]) == pn(fn, 1)]
     ctx.check(bool(sl) and src(sl[0].value).replace(" ", "") == "%s[len(codecs.BOM_UTF8):]" % pn(fn, 1), "bom-removed-exactly", db.where(b), "the BOM is not removed by text[len(codecs.BOM_UTF8):]", "text continues right after the mark")
     encv = {c.args[0].id for c in dec}
-    pe = [s for s in b.body if isinstance(s, ast.Assign) and src(s.targets[0]) in encv]
-    ctx.check(bool(pe) and const(pe[0].value) in ("utf-8", "utf8", "UTF-8"), "bom-means-utf8", db.where(b), "a BOM does not select UTF-8", "BOM selects utf-8")
-    rs = [r for r in ast.walk(b) if isinstance(r, ast.Raise) and isinstance(r.exc, ast.Call)]
+    pe = [s for s in under_bom if isinstance(s, ast.Assign) and src(s.targets[0]) in encv]
+    ctx.check(bool(pe) and all(const(p_.value) in ("utf-8", "utf8", "UTF-8") for p_ in pe), "bom-means-utf8", db.where(b), "a BOM does not select UTF-8", "BOM selects utf-8")
+    rs = [r for r in under_bom if isinstance(r, ast.Raise) and isinstance(r.exc, ast.Call)]
     ctx.check(bool(rs) and all(dotted(r.exc.func).endswith("CompileException") for r in rs), "bom-conflict-raises", db.where(b), "a BOM contradicted by the coding comment does not raise CompileException", "conflict raises CompileException")
     ps = db.func("lexer.Lexer.parse")
     skip = [c for c in calls(ps, "self.match_reg") if src(c.args[0]) == "self._coding_re"]
